@@ -110,3 +110,24 @@ def suffix_for(sid, script):
 
 def read_all(DiffXReader, data):
     return list(DiffXReader(SymStream(data)))
+
+
+def writer_internals_missing():
+    """None if DiffXWriter still keeps its state the way the inductive steps construct it (a list `_stack` of dicts
+    with an 'encoding' key and a str `_prev_section`, private section helpers present), else the reason the steps
+    are skipped (the public-API obligations still run)"""
+    import io
+    from pydiffx.writer import DiffXWriter
+    for a in ('_new_container_section', '_new_content_section'):
+        if not hasattr(DiffXWriter, a):
+            return 'DiffXWriter.%s not found in the current source' % a
+    try:
+        w = DiffXWriter(io.BytesIO(), encoding='utf-16')
+        w.new_change()
+        st, prev = w._stack, w._prev_section
+        if not (isinstance(st, list) and st and all(type(f) is dict and 'encoding' in f for f in st)
+                and isinstance(prev, str)):
+            return 'DiffXWriter._stack / _prev_section do not have the shape the step constructs'
+    except AttributeError as e:
+        return 'DiffXWriter internals renamed (%s)' % e
+    return None
